@@ -169,16 +169,27 @@ func (r *ruleT) classes() string {
 	return strings.Join(l, "+")
 }
 
-// statement tables as the reference sees them
-type tablesT struct {
-	top    []string // FROM tables incl. joins / INSERT target
-	nested []string // tables of sub-selects, derived tables, INSERT...SELECT source
-	other  []string // UPDATE / DELETE target, UNION branch tables: outside "reads from / inserts into at top level"
+// tref is one table reference of a statement: its name and the schema / database qualifier it is
+// written with ("" none).
+type tref struct{ S, A string }
+
+func (t tref) String() string {
+	if t.S != "" {
+		return t.S + "." + t.A
+	}
+	return t.A
 }
 
-func collectTables(n *N, into *[]string) {
+// statement tables as the reference sees them
+type tablesT struct {
+	top    []tref // FROM tables incl. joins / INSERT target
+	nested []tref // tables of sub-selects, derived tables, INSERT...SELECT source
+	other  []tref // UPDATE / DELETE target, UNION branch tables: outside "reads from / inserts into at top level"
+}
+
+func collectTables(n *N, into *[]tref) {
 	if n.K == "tbl" {
-		*into = append(*into, n.A)
+		*into = append(*into, tref{n.S, n.A})
 	}
 	for _, c := range n.C {
 		collectTables(c, into)
@@ -191,7 +202,7 @@ func stmtTables(s *stmtT) tablesT {
 	fromRec = func(n *N) {
 		switch n.K {
 		case "tbl":
-			t.top = append(t.top, n.A)
+			t.top = append(t.top, tref{n.S, n.A})
 		case "join":
 			fromRec(n.C[0])
 			fromRec(n.C[1])
@@ -215,7 +226,7 @@ func stmtTables(s *stmtT) tablesT {
 	case "insert":
 		for _, c := range root.C {
 			if c.K == "tbl" {
-				t.top = append(t.top, c.A)
+				t.top = append(t.top, tref{c.S, c.A})
 			} else {
 				collectTables(c, &t.nested)
 			}
@@ -239,10 +250,15 @@ func deriveRules(pool []*stmtT) []*ruleT {
 	}
 	for si, s := range pool {
 		add(&ruleT{Kind: "queries", Src: si})
-		var tb []string
+		// every table of the statement as a `tables` rule: its bare name (the documented form of the
+		// rule) and, when the statement writes it with a schema / database qualifier, that spelling too
+		var tb []tref
 		collectTables(s.Root, &tb)
-		for _, name := range tb {
-			add(&ruleT{Kind: "tables", Src: -1, Table: name})
+		for _, t := range tb {
+			add(&ruleT{Kind: "tables", Src: -1, Table: t.A})
+			if t.S != "" {
+				add(&ruleT{Kind: "tables", Src: -1, Table: t.String()})
+			}
 		}
 		for _, g := range antichains(positions(s)) {
 			add(&ruleT{Kind: "patterns", Src: si, Gen: g})
@@ -347,7 +363,7 @@ func (m *refMatcher) placeholder(q, p *N) tri {
 func atomEqual(q, p *N) bool {
 	switch p.K {
 	case "tbl", "col", "func", "dtbl":
-		return strings.EqualFold(q.A, p.A) && strings.EqualFold(q.Q, p.Q)
+		return strings.EqualFold(q.A, p.A) && strings.EqualFold(q.Q, p.Q) && strings.EqualFold(q.S, p.S)
 	case "ob":
 		d := func(s string) string {
 			if s == "" {
@@ -357,7 +373,7 @@ func atomEqual(q, p *N) bool {
 		}
 		return d(q.A) == d(p.A)
 	}
-	return q.A == p.A && q.Q == p.Q
+	return q.A == p.A && q.Q == p.Q && q.S == p.S
 }
 
 func (m *refMatcher) node(q, p *N) tri {
@@ -460,12 +476,12 @@ func termEqual(a, b *N) (exact, fold bool) {
 	if a.K != b.K || len(a.C) != len(b.C) {
 		return false, false
 	}
-	exact = a.A == b.A && a.Q == b.Q && a.Quoted == b.Quoted
+	exact = a.A == b.A && a.Q == b.Q && a.S == b.S && a.Quoted == b.Quoted
 	fold = exact
 	if !exact {
 		switch a.K {
 		case "tbl", "col", "func", "dtbl":
-			fold = strings.EqualFold(a.A, b.A) && strings.EqualFold(a.Q, b.Q)
+			fold = strings.EqualFold(a.A, b.A) && strings.EqualFold(a.Q, b.Q) && strings.EqualFold(a.S, b.S)
 		}
 	}
 	if !fold {
@@ -498,74 +514,98 @@ func refQuery(pool []*stmtT, r *ruleT, si int) tri {
 	return no
 }
 
-func inSet(set []string, name string) (exact, fold bool) {
-	for _, s := range set {
-		if s == name {
-			return true, true
+// listed: is table t of a statement named by the `tables` rules of one handler. A rule is a bare
+// table name (the documented form) or a name written with a schema / database qualifier.
+//
+//	bare rule R, table written t           : R == t => yes
+//	bare rule R, table written s.t         : R == t => deny: yes - the statement reads from / inserts into a
+//	                                         table named R, and a rule that a client could step around by
+//	                                         naming the schema the connection works in would deny nothing;
+//	                                         allow: not compared (whether the allowed table R and s.R are one
+//	                                         table depends on the connection's schema, unknown to the firewall)
+//	qualified rule s.R, table written s.t  : s.R == s.t => yes (the table exactly as the rule names it)
+//	qualified rule s.R, table written t    : R == t => not compared (same reason)
+//	names that agree only up to case       : not compared
+func listed(handlerKind string, set []string, t tref) tri {
+	res := no
+	for _, rule := range set {
+		rs, ra := "", rule
+		if i := strings.Index(rule, "."); i >= 0 {
+			rs, ra = rule[:i], rule[i+1:]
 		}
-		if strings.EqualFold(s, name) {
-			fold = true
+		m := no
+		switch {
+		case !strings.EqualFold(ra, t.A):
+		case rs == "" && t.S == "":
+			m = unk
+			if ra == t.A {
+				m = yes
+			}
+		case rs == "":
+			m = unk
+			if ra == t.A && handlerKind == "deny" {
+				m = yes
+			}
+		case t.S == "":
+			m = unk
+		case strings.EqualFold(rs, t.S):
+			m = unk
+			if rs == t.S && ra == t.A {
+				m = yes
+			}
 		}
+		res = or3(res, m)
 	}
-	return false, fold
+	return res
 }
 
 // refTables: `tables` rules of one handler taken as a set. deny: some table the statement reads from
 // / inserts into (top level, joins included) is listed (TestDenyTables, TestDifferentTablesParsing);
 // allow: all of them are listed (TestAllowTables). Tables only reachable through sub-selects, derived
 // tables, INSERT...SELECT sources, UNION branches, and UPDATE / DELETE targets are outside the
-// reference's domain whenever they could change the answer. Table names that agree only up to case:
-// not compared.
+// reference's domain whenever they could change the answer. Table names that agree only up to case
+// and the qualified spellings named at `listed`: not compared.
 func refTables(handlerKind string, set []string, t tablesT) tri {
-	touch := func(names []string) (anyExact, anyFold, allExact, allFoldOnly bool) {
-		allExact = true
+	touch := func(names []tref) (anyYes, anyUnk, anyNo bool) {
 		for _, n := range names {
-			e, f := inSet(set, n)
-			if e {
-				anyExact = true
-			} else {
-				allExact = false
-				if f {
-					anyFold = true
-					allFoldOnly = true
-				}
+			switch listed(handlerKind, set, n) {
+			case yes:
+				anyYes = true
+			case unk:
+				anyUnk = true
+			default:
+				anyNo = true
 			}
 		}
 		return
 	}
-	topAny, topFold, topAll, _ := touch(t.top)
-	nestAny, nestFold, _, _ := touch(t.nested)
-	othAny, othFold, othAll, _ := touch(t.other)
+	topYes, topUnk, topNo := touch(t.top)
+	nestYes, nestUnk, _ := touch(t.nested)
+	othYes, othUnk, othNo := touch(t.other)
 	if handlerKind == "deny" {
 		switch {
-		case topAny:
+		case topYes:
 			return yes
-		case topFold || nestAny || nestFold || othAny || othFold:
+		case topUnk || nestYes || nestUnk || othYes || othUnk:
 			return unk
 		}
 		return no
 	}
 	// allow
 	if len(t.other) > 0 {
-		if othAll || othFold {
-			return unk
+		if othNo {
+			return no
 		}
-		return no
+		return unk
 	}
 	if len(t.top) == 0 {
 		return unk // no table at top level (SELECT 1, derived table only)
 	}
-	if !topAll {
-		if topFold {
-			// some top-level table is listed only up to case
-			for _, n := range t.top {
-				if e, f := inSet(set, n); !e && !f {
-					return no
-				}
-			}
-			return unk
-		}
-		return no
+	if topNo {
+		return no // some top-level table is listed under no reading
+	}
+	if topUnk {
+		return unk
 	}
 	if len(t.nested) > 0 {
 		// all top-level tables listed; the nested ones decide under one reading and not under the other
